@@ -34,6 +34,9 @@ let () =
     let f = String.split_on_char ' ' line in
     incr total;
     (match f with
+    | ["newevent"; m; "PANIC"] -> bump "newevent"; report "newevent" "DOC" m "PANIC" "(a value)"
+    | ["opstring"; o; "PANIC"] -> bump "opstring"; report "opstring" "DOC" o "PANIC" "(a string)"
+    | ["evstring"; nm; op; fr; "PANIC"; _; _] -> bump "evstring"; report "evstring" "DOC" (nm ^ "," ^ op ^ "," ^ fr) "PANIC" "(a string)"
     | ["newevent"; m; op] ->
       bump "newevent";
       let m' = n_of_int (int_of_string m) and op = int_of_string op in
